@@ -24,6 +24,7 @@ const (
 	sBlockPooled // block by resetting the pooled result of the context
 	sBlockBare   // block in place with the block type only (no message, rule or value)
 	sBlockMsg    // block in place with type and message only
+	sBlockCached // block with a result object the slot created once and returns every time
 )
 
 type SlotSpec struct {
@@ -71,6 +72,7 @@ func (P) Gen(rng *sim.Rng, tier string) *harness.Case {
 		}
 		for i := 0; i < n; i++ {
 			sp := SlotSpec{Kind: kind, Order: orders[rng.Intn(len(orders))]}
+			ownResult := kind == 1 && rng.Chance(0.15) // a slot that blocks with its one result object whenever it blocks
 			for e := 0; e < nEnt; e++ {
 				s := sPass
 				switch kind {
@@ -85,7 +87,7 @@ func (P) Gen(rng *sim.Rng, tier string) *harness.Case {
 					case 1, 2:
 						s = sBlock
 					case 3:
-						s = []int{sBlockPooled, sBlockPooled, sBlockBare, sBlockMsg}[rng.Intn(4)]
+						s = []int{sBlockPooled, sBlockPooled, sBlockBare, sBlockMsg, sBlockCached, sBlockCached}[rng.Intn(6)]
 					case 4:
 						if rng.Chance(0.5) {
 							s = sPanic
@@ -95,6 +97,9 @@ func (P) Gen(rng *sim.Rng, tier string) *harness.Case {
 					if rng.Chance(0.04) {
 						s = sPanic
 					}
+				}
+				if ownResult && (s == sBlock || s == sBlockPooled || s == sBlockBare || s == sBlockMsg) {
+					s = sBlockCached
 				}
 				sp.Script = append(sp.Script, s)
 			}
@@ -168,7 +173,8 @@ func (d *dummyRule) ResourceName() string { return d.name }
 
 type check struct {
 	slotBase
-	rule *dummyRule
+	rule   *dummyRule
+	cached *base.TokenResult
 }
 
 func (s *check) Check(ctx *base.EntryContext) *base.TokenResult {
@@ -182,6 +188,12 @@ func (s *check) Check(ctx *base.EntryContext) *base.TokenResult {
 	case sBlockPooled:
 		ctx.RuleCheckResult.ResetToBlockedWithCause(base.BlockTypeIsolation, fmt.Sprintf("blocked by slot %d for entry %d", s.id, e), s.rule, float64(s.id*1000+e))
 		return ctx.RuleCheckResult
+	case sBlockCached:
+		// the allocation-free way to write an always-blocking slot: one result, made once
+		if s.cached == nil {
+			s.cached = base.NewTokenResultBlockedWithCause(base.BlockTypeCircuitBreaking, fmt.Sprintf("blocked by slot %d (its one result object)", s.id), s.rule, float64(s.id*1000))
+		}
+		return s.cached
 	case sBlockBare:
 		ctx.RuleCheckResult.ResetToBlocked(base.BlockTypeSystemFlow)
 		return ctx.RuleCheckResult
@@ -266,7 +278,7 @@ func (P) Exec(c *harness.Case) *harness.Outcome {
 		case 0:
 			sc.AddStatPrepareSlot(&prep{sb})
 		case 1:
-			sc.AddRuleCheckSlot(&check{sb, &dummyRule{fmt.Sprintf("rule-of-slot-%d", i)}})
+			sc.AddRuleCheckSlot(&check{slotBase: sb, rule: &dummyRule{fmt.Sprintf("rule-of-slot-%d", i)}})
 		default:
 			sc.AddStatSlot(&stat{sb})
 		}
@@ -327,7 +339,7 @@ func (P) Exec(c *harness.Case) *harness.Outcome {
 						o.Probe("panic_in_check")
 						break
 					}
-					if s == sBlock || s == sBlockPooled || s == sBlockBare || s == sBlockMsg {
+					if s == sBlock || s == sBlockPooled || s == sBlockBare || s == sBlockMsg || s == sBlockCached {
 						blocked, blockBy = true, id
 						break
 					}
@@ -386,6 +398,9 @@ func (P) Exec(c *harness.Case) *harness.Outcome {
 				switch scriptOf(blockBy, k) {
 				case sBlockPooled:
 					wantType = base.BlockTypeIsolation
+				case sBlockCached:
+					wantType, wantMsg, wantVal = base.BlockTypeCircuitBreaking, fmt.Sprintf("blocked by slot %d (its one result object)", blockBy), interface{}(float64(blockBy*1000))
+					o.Probe("blocked_with_the_slots_own_result_object")
 				case sBlockBare:
 					// blocked in place with the type only: nothing else may be carried, in particular nothing that an
 					// earlier entry left in the pooled result
